@@ -162,6 +162,39 @@ def rewrite_source(fn_text, rewrites):
                 ncalls += 1; k = c + 1
             else: k += 1
         applied.append('closure %s(%s) inlined at %d call sites' % (fname, ', '.join(params), ncalls))
+    # R4: wildcard closure parameters `|_, v|` -> `|_w0, v|` (Verus: "only variables are supported here, not general patterns").
+    #     Declared per function as `rewrites=wild`. A `|` opens a closure parameter list when it follows `(`, `,`, `=`, `move`,
+    #     `{`, `;` or `return`; inside it a bare `_` between `|`/`,` and `,`/`|`/`:` is an unused binding and is given a name.
+    if 'wild' in rewrites:
+        n = 0; i = 0
+        while i < len(toks):
+            if toks[i].text == '|' and i > 0 and toks[i - 1].text in ('(', ',', '=', 'move', '{', ';', 'return'):
+                j = i + 1
+                while j < len(toks) and toks[j].text != '|': j += 1
+                for k in range(i + 1, j):
+                    if toks[k].text == '_' and toks[k - 1].text in ('|', ',') and toks[k + 1].text in (',', '|', ':'):
+                        edits.append((toks[k].pos, toks[k].end, '_w%d' % n)); n += 1
+                i = j + 1
+            else: i += 1
+        if n: applied.append('%d wildcard closure parameter(s) named' % n)
+    # R5: `for _ in 0..N { BODY }` -> `let mut _fiK: usize = 0; while _fiK < N { _fiK += 1; BODY }` (Verus: "for-loops do not yet
+    #     support continue"). Declared per function as `rewrites=for2while`. Only for an unused loop variable `_`, the literal
+    #     lower bound 0 and an upper bound that is a plain identifier which the function never declares `mut` nor assigns
+    #     (so evaluating it once, as `for` does, or on every test, as `while` does, is the same). `continue` then re-tests the
+    #     guard after the increment, exactly as the range iterator would; `_fiK < N` bounds the increment.
+    if 'for2while' in rewrites:
+        n = 0
+        for i in range(len(toks) - 6):
+            if [t.text for t in toks[i:i + 4]] == ['for', '_', 'in', '0'] and toks[i + 4].text == '..' and toks[i + 5].kind == 'id' and toks[i + 6].text == '{':
+                bound = toks[i + 5].text
+                T = [t.text for t in toks]
+                for k in range(len(T) - 1):
+                    if T[k] == bound and ((k > 0 and T[k - 1] == 'mut') or (T[k + 1] in ('=', '+=', '-=', '*=', '/=') )):
+                        raise ExtractError('rewrite for2while: the bound %s is mutable or assigned' % bound)
+                v = '_fi%d' % n; n += 1
+                edits.append((toks[i].pos, toks[i + 6].end, 'let mut %s: usize = 0; while %s < %s { %s += 1;' % (v, v, bound, v)))
+        if n: applied.append('%d `for _ in 0..N` loop(s) written as while loops' % n)
+        else: raise ExtractError('rewrite for2while: no `for _ in 0..N` loop found')
     out = fn_text
     for s, e, r in sorted(edits, reverse=True):
         out = out[:s] + r + out[e:]
